@@ -266,7 +266,9 @@ func WithClientIPResolver(resolver ClientIPResolver) Option {
 // packages that use route annotation.
 func WithAnnotation(key, value any) RouteOption {
 	return routeOptionFunc(func(s sealedOption) error {
-		if !reflect.TypeOf(key).Comparable() {
+		// A nil key, or a key whose dynamic value holds a non-comparable value (e.g. a struct with an
+		// interface field holding a slice), cannot be used as a map key.
+		if key == nil || !reflect.ValueOf(key).Comparable() {
 			return fmt.Errorf("%w: annotation key is not comparable", ErrInvalidConfig)
 		}
 		if s.route.annots == nil {
